@@ -6,10 +6,10 @@ SOURCE = {}
 CONTRACTS = []
 
 
-def harness(name, params, src, requires=None, loops=None, lemmas=None, ghost_params=None, raises=None):
+def harness(name, params, src, requires=None, loops=None, lemmas=None, ghost_params=None, raises=None, split=None):
     SOURCE["harness." + name] = src.strip("\n") + "\n"
     CONTRACTS.append(dict(name="harness." + name, params=params, requires=requires or {}, ensures={}, raises=raises or {}, returns="none",
-                          loops=loops or {}, lemmas=lemmas or [], variant_of="harness", ghost_params=ghost_params or {}))
+                          loops=loops or {}, lemmas=lemmas or [], variant_of="harness", ghost_params=ghost_params or {}, split=split or {}))
 
 
 # ---------------------------------------------------------------------------------------------------------------- C16
@@ -307,8 +307,12 @@ for _sh in (False, True):
 
 # ---------------------------------------------------------------------------------------------------------------- C02 (chain, thresholds 2..4)
 SUCC_K = "succ(u, j, k)"
-def c02_chain(shuffled):
-  nm = "c02_chain" + ("_table" if shuffled else "")
+def c02_chain(shuffled, fast=False):
+  nm = "c02_chain" + ("_fast" if fast else "") + ("_table" if shuffled else "")
+  step = ("fast_step(accessor, " + ("shuffles" if shuffled else "None") + ", bits, encode_loc, encode_vtx, s, p)") if fast else \
+         ("enc_step(accessor, " + ("shuffles" if shuffled else "None") + ", encode_gq, encode_vtx, s, p)")
+  # fast mode is defined on graphs without out-degree 3 only: the claim is made for the generated graphs that have none
+  guard = " and forall(lambda v: deg(accessor, v) != 3, 0, ipow(4, k), lambda v: here(v))" if fast else ""
   sh = "shuffles" if shuffled else "None"
   rq = {"order": "k >= 1", "threshold": "2 <= t and t <= 4", "start": "start_index < ipow(4, k)"}
   if shuffled:
@@ -333,16 +337,16 @@ def ''' + nm + '''(f, k, t, bits, start_index, w, shuffles):
         forall(lambda v: desc[v] == 0 or desc[v] == 1, 0, len(desc)))
     R = desc
     rank = [0] * ipow(4, k)
-    if desc[start_index] != 0:
+    if desc[start_index] != 0''' + guard + ''':
         mark(start_index)
         assert is_accessor(accessor, k), "generated-graph-is-an-accessor"
-        s = encode(bits, accessor, start_index, False, 0, ''' + sh + ''')
+        s = encode(bits, accessor, start_index, ''' + ("True" if fast else "False") + ''', 0, ''' + sh + ''')
         m = len(s)
         prefix = number_to_dna(start_index, k)
         cut(forall(lambda u: forall(lambda j: accessor[u][j] == ite(desc[u] != 0 and desc[''' + SUCC_K + '''] != 0, ''' + SUCC_K + ''', -1), 0, 4), 0, ipow(4, k), lambda u: accessor[u]),
             forall(lambda v: implies(desc[v] != 0, mask[v] != 0), 0, ipow(4, k)),
             forall(lambda i: (mask[i] != 0) == accepts(f, i, k), 0, ipow(4, k)),
-            forall(lambda p: enc_step(accessor, ''' + sh + ''', encode_gq, encode_vtx, s, p), 0, m, lambda p: s[p]),
+            forall(lambda p: ''' + step + ''', 0, m, lambda p: s[p]),
             len(encode_vtx) == m + 1, encode_vtx[0] == start_index, desc[start_index] != 0, is_accessor(accessor, k), len(desc) == ipow(4, k),
             len(mask) == ipow(4, k), m >= 0, ipow(4, k) == 4 * ipow(4, k - 1), ipow(4, k - 1) >= 1,
             len(prefix) == k, is_dna(prefix), dnav(prefix, 0, k) == start_index)
@@ -370,6 +374,8 @@ def ''' + nm + '''(f, k, t, bits, start_index, w, shuffles):
 
 c02_chain(False)
 c02_chain(True)
+c02_chain(False, True)
+c02_chain(True, True)
 
 
 # ---------------------------------------------------------------------------------------------------------------- C01 (fast mode)
@@ -470,3 +476,217 @@ def c14_roundtrip_latter_map(acc0, k, v, j):
     back = latter_map_to_accessor(lm, k)
     assert back[v][j] == acc0[v][j], "accessor -> latter map -> accessor is the identity"
 ''', requires={"graph": "k >= 1 and is_accessor(acc0, k)", "entry": "v < ipow(4, k) and j < 4"}, ghost_params={"k": "nat"})
+
+
+# ---------------------------------------------------------------------------------------------------------------- C04 (normal-mode tightness)
+def c04_tight(shuffled):
+    name = "c04_tight_normal" + ("_table" if shuffled else "")
+    sh = "shuffles" if shuffled else "None"
+    src = """
+def %s(bits, accessor, start_index, shuffles, k, R, rank, mind):
+    s = encode(bits, accessor, start_index, False, 0, %s)
+    n = len(s)
+    dg = []
+    p = 0
+    while p < n:
+        mark(code(s[p]))
+        mark(encode_vtx[p])
+        dg.append(deg(accessor, encode_vtx[p]))
+        p += 1
+    if n > 0:
+        mark(code(s[n - 1]))
+        assert deg(accessor, encode_vtx[n - 1]) >= 2, "the last nucleotide is an information-carrying one"
+        t = 0
+        while t < n - 1:
+            mark(code(s[t]))
+            mul_step(wt(dg, 0, t), dg[t], wt(dg, 0, t + 1), encode_gq[t + 1], encode_gq[t])
+            mul_mono(wt(dg, 0, t), mind, dg[t])
+            t += 1
+        mul_mono(wt(dg, 0, n - 1), 1, encode_gq[n - 1])
+        assert wt(dg, 0, n - 1) <= val(bits, 0, len(bits), 2), "the product of the out-degrees met before the last step never exceeds the message value"
+        pv_bound(A(bits), D(bits), P(bits, 0), P(bits, len(bits)), 2)
+        if mind == 2:
+            if n - 1 >= len(bits):
+                ipow_mono(2, len(bits), n - 1)
+            assert n <= len(bits), "an L-bit message needs at most L nucleotides when every reachable vertex has out-degree >= 2"
+        if mind == 4:
+            ipow_4_2(n - 1)
+            if 2 * (n - 1) >= len(bits):
+                ipow_mono(2, len(bits), 2 * (n - 1))
+            assert 2 * n <= len(bits) + 1, "an L-bit message needs at most ceil(L/2) nucleotides on the complete graph"
+""" % (name, sh)
+    req = dict(WFH)
+    req["minimum-out-degree"] = "forall(lambda v: implies(0 <= v and v < ipow(4, k) and R[v] != 0, deg(accessor, v) >= mind), 0, ipow(4, k), lambda v: here(v))"
+    if shuffled:
+        req["table"] = "is_table(shuffles, k)"
+    harness(name, {"bits": "nd_bits", "accessor": "mat(ipow(4, k), 4)", "start_index": "nat",
+                   "shuffles": "mat(ipow(4, k), 4)" if shuffled else "none", "R": "nd_bits", "rank": "list_int", "mind": "nat"},
+            src, requires=req, ghost_params={"k": "nat"}, split={"mind": [1, 2, 4]},
+            loops={
+                1: dict(invariant={"range": "0 <= p <= n and len(dg) == p",
+                                   "on-reachable-vertex": "0 <= encode_vtx[p] and encode_vtx[p] < ipow(4, k) and R[encode_vtx[p]] != 0",
+                                   "out-degrees": "forall(lambda i: dg[i] == deg(accessor, encode_vtx[i]) and dg[i] >= mind and dg[i] >= 1, 0, p)"},
+                        variant="n - p"),
+                2: dict(invariant={"range": "0 <= t <= n - 1",
+                                   "weight-positive": "wt(dg, 0, t) >= 1 and wt(dg, 0, t) >= ipow(mind, t)",
+                                   "weight-times-quotient": "wt(dg, 0, t) * encode_gq[t] <= encode_gq[0]"}, variant="n - 1 - t"),
+            })
+
+
+c04_tight(False)
+c04_tight(True)
+
+
+def c04_steps(shuffled):
+    name = "c04_step_bound_normal" + ("_table" if shuffled else "")
+    sh = "shuffles" if shuffled else "None"
+    src = """
+def %s(bits, accessor, start_index, shuffles, k, R, rank, nv):
+    s = encode(bits, accessor, start_index, False, 0, %s)
+    n = len(s)
+    dg = []
+    p = 0
+    while p < n:
+        mark(code(s[p]))
+        mark(encode_vtx[p])
+        dg.append(deg(accessor, encode_vtx[p]))
+        p += 1
+    if n > 0:
+        mark(start_index)
+        t = 0
+        c = 0
+        B = 0
+        while t < n - 1:
+            mark(code(s[t]))
+            mark(encode_vtx[t])
+            mark(encode_vtx[t + 1])
+            assert dg[t] == deg(accessor, encode_vtx[t]) and (dg[t] >= 2 or rank[encode_vtx[t + 1]] < rank[encode_vtx[t]]), "one-arc steps lower the rank"
+            assert R[encode_vtx[t + 1]] != 0 and 0 <= rank[encode_vtx[t + 1]] and rank[encode_vtx[t + 1]] < nv, "next vertex is reachable"
+            mul_step(wt(dg, 0, t), dg[t], wt(dg, 0, t + 1), encode_gq[t + 1], encode_gq[t])
+            if dg[t] >= 2:
+                mul_mono(wt(dg, 0, t), 2, dg[t])
+                c += 1
+                B += nv
+            t += 1
+        mark(code(s[n - 1]))
+        mark(encode_vtx[n - 1])
+        mul_mono(wt(dg, 0, n - 1), 1, encode_gq[n - 1])
+        pv_bound(A(bits), D(bits), P(bits, 0), P(bits, len(bits)), 2)
+        if c >= len(bits):
+            ipow_mono(2, len(bits), c)
+        assert c + 1 <= len(bits), "fewer branching steps than message bits"
+        mul_mono(nv, c + 1, len(bits))
+        assert n <= len(bits) * nv, "encoding ends within (message length) x (vertex count) steps"
+""" % (name, sh)
+    req = dict(WFH)
+    req["rank-below-vertex-count"] = "nv >= 1 and forall(lambda v: implies(0 <= v and v < ipow(4, k) and R[v] != 0, rank[v] < nv), 0, ipow(4, k), lambda v: here(v))"
+    if shuffled:
+        req["table"] = "is_table(shuffles, k)"
+    harness(name, {"bits": "nd_bits", "accessor": "mat(ipow(4, k), 4)", "start_index": "nat",
+                   "shuffles": "mat(ipow(4, k), 4)" if shuffled else "none", "R": "nd_bits", "rank": "list_int", "nv": "nat"},
+            src, requires=req, ghost_params={"k": "nat"},
+            loops={
+                1: dict(invariant={"range": "0 <= p <= n and len(dg) == p",
+                                   "on-reachable-vertex": "0 <= encode_vtx[p] and encode_vtx[p] < ipow(4, k) and R[encode_vtx[p]] != 0",
+                                   "out-degrees": "forall(lambda i: dg[i] == deg(accessor, encode_vtx[i]) and dg[i] >= 1 and 0 <= encode_vtx[i] and "
+                                                  "encode_vtx[i] < ipow(4, k) and R[encode_vtx[i]] != 0 and "
+                                                  "(dg[i] >= 2 or rank[encode_vtx[i + 1]] < rank[encode_vtx[i]]), 0, p)"},
+                        variant="n - p"),
+                2: dict(invariant={"range": "0 <= t <= n - 1 and c >= 0",
+                                   "branching-steps-times-vertex-count": "B == c * nv",
+                                   "weight": "wt(dg, 0, t) >= 1 and wt(dg, 0, t) >= ipow(2, c)",
+                                   "weight-times-quotient": "wt(dg, 0, t) * encode_gq[t] <= encode_gq[0]",
+                                   "potential": "t + rank[encode_vtx[t]] <= B + nv - 1"}, variant="n - 1 - t"),
+            })
+
+
+c04_steps(False)
+c04_steps(True)
+
+
+def c04_steps_fast(shuffled):
+    name = "c04_step_bound_fast" + ("_table" if shuffled else "")
+    sh = "shuffles" if shuffled else "None"
+    src = """
+def %s(bits, accessor, start_index, shuffles, k, R, rank, nv):
+    s = encode(bits, accessor, start_index, True, 0, %s)
+    n = len(s)
+    p = 0
+    while p < n:
+        mark(code(s[p]))
+        mark(encode_vtx[p])
+        mark(p)
+        p += 1
+    if n > 0:
+        mark(start_index)
+        t = 0
+        c = 0
+        B = 0
+        while t < n - 1:
+            mark(code(s[t]))
+            mark(encode_vtx[t])
+            mark(encode_vtx[t + 1])
+            mark(t)
+            assert deg(accessor, encode_vtx[t]) >= 2 or rank[encode_vtx[t + 1]] < rank[encode_vtx[t]], "one-arc steps lower the rank"
+            assert R[encode_vtx[t + 1]] != 0 and 0 <= rank[encode_vtx[t + 1]] and rank[encode_vtx[t + 1]] < nv, "next vertex is reachable"
+            if deg(accessor, encode_vtx[t]) >= 2:
+                c += 1
+                B += nv
+            t += 1
+        mark(code(s[n - 1]))
+        mark(encode_vtx[n - 1])
+        mark(n - 1)
+        assert encode_loc[n - 1] < len(bits), "the last step still had a bit to carry or a cursor inside the message"
+        assert c + 1 <= len(bits), "fewer branching steps than message bits"
+        mul_mono(nv, c + 1, len(bits))
+        assert n <= len(bits) * nv, "fast-mode encoding ends within (message length) x (vertex count) steps"
+""" % (name, sh)
+    from contracts.spiderweb import WF_FAST
+    req = dict(WFH)
+    req["reachable-closed"] = WF_FAST["reachable-closed"]
+    req["no-out-degree-3"] = "forall(lambda v: deg(accessor, v) != 3, 0, ipow(4, k), lambda v: here(v))"
+    req["rank-below-vertex-count"] = "nv >= 1 and forall(lambda v: implies(0 <= v and v < ipow(4, k) and R[v] != 0, rank[v] < nv), 0, ipow(4, k), lambda v: here(v))"
+    if shuffled:
+        req["table"] = "is_table(shuffles, k)"
+    harness(name, {"bits": "nd_bits", "accessor": "mat(ipow(4, k), 4)", "start_index": "nat",
+                   "shuffles": "mat(ipow(4, k), 4)" if shuffled else "none", "R": "nd_bits", "rank": "list_int", "nv": "nat"},
+            src, requires=req, ghost_params={"k": "nat"},
+            loops={
+                1: dict(invariant={"range": "0 <= p <= n",
+                                   "on-reachable-vertex": "0 <= encode_vtx[p] and encode_vtx[p] < ipow(4, k) and R[encode_vtx[p]] != 0",
+                                   "steps": "forall(lambda i: 0 <= encode_vtx[i] and encode_vtx[i] < ipow(4, k) and R[encode_vtx[i]] != 0 and "
+                                            "(deg(accessor, encode_vtx[i]) >= 2 or rank[encode_vtx[i + 1]] < rank[encode_vtx[i]]), 0, p, lambda i: here(i))"},
+                        variant="n - p"),
+                2: dict(invariant={"range": "0 <= t <= n - 1 and c >= 0",
+                                   "branching-steps-times-vertex-count": "B == c * nv",
+                                   "branching-steps-consume-bits": "c <= encode_loc[t]",
+                                   "potential": "t + rank[encode_vtx[t]] <= B + nv - 1"}, variant="n - 1 - t"),
+            })
+
+
+c04_steps_fast(False)
+c04_steps_fast(True)
+
+
+# ---------------------------------------------------------------------------------------------------------------- C03 (monotonicity in the mask)
+harness("c03_smaller_mask_smaller_graph", {"small": "nd_bits", "large": "nd_bits", "t": "nat"}, '''
+def c03_smaller_mask_smaller_graph(k, small, large, t):
+    ipow_mono(4, 0, k)
+    S = [0] * ipow(4, k)
+    desc1, acc1 = connect_coding_graph(k, small, t)
+    dv = 0
+    while dv < ipow(4, k):
+        mark(dv)
+        assert implies(desc1[dv] != 0, nsucc(desc1, dv, k) >= t and large[dv] != 0), "the-smaller-graph-is-a-closed-subset-of-the-larger-mask"
+        dv += 1
+    S = desc1
+    desc2, acc2 = connect_coding_graph(k, large, t)
+    assert forall(lambda v: implies(desc1[v] != 0, desc2[v] != 0), 0, ipow(4, k)), "a smaller mask never yields a larger graph"
+''', requires={"order": "k >= 1", "mask-lengths": "len(small) == ipow(4, k) and len(large) == ipow(4, k)",
+                 "smaller": "forall(lambda v: implies(small[v] != 0, large[v] != 0), 0, ipow(4, k))"},
+        ghost_params={"k": "nat"}, split={"t": [2, 3, 4]},
+        loops={1: dict(invariant={"range": "0 <= dv <= ipow(4, k)",
+                                  "closed-inside-the-larger-mask-so-far": "forall(lambda v: implies(desc1[v] != 0, nsucc(desc1, v, k) >= t), 0, dv, lambda v: here(v)) and "
+                                                                          "forall(lambda v: implies(desc1[v] != 0, large[v] != 0), 0, dv)"},
+                       variant="ipow(4, k) - dv")},
+        raises={"ValueError": None})
